@@ -21,6 +21,11 @@ from vlib.props.C11 import FixedRandom, members, fresh
 ASPECT = 'C18'
 
 
+# the draws of TypeOverwriting.transform that select WHAT is mutated (method, graph node, type parameter) are
+# tuples / named tuples; draws inside find_irrelevant_type range over types and take the first element
+MUTATION_CHOICES = lambda seq: isinstance(seq[0], tuple)      # noqa: E731
+
+
 def own_language(name, program):
     if name.startswith('generated/'):
         return name.split('/')[1]
@@ -68,7 +73,7 @@ def h_pipeline(eng, tier, sym_draws):
         except Exception:       # noqa -- reported by part 0
             r1 = None
         if r1 is not None:
-            sym = installed(eng, max_draws=3000, max_sym_draws=sym_draws)
+            sym = installed(eng, max_draws=3000, max_sym_draws=sym_draws, sym_filter=MUTATION_CHOICES)
             r2, e2 = stage('type-overwriting-of-erased', lambda: P.overwrite_split(r1, lang, FixedRandom(), sym)[0])
             if r2 is not None:
                 with FixedRandom():
